@@ -77,6 +77,10 @@ pub enum Op {
     /// remove the carrier's state directory while the test runs. Written so that it is a no-op
     /// wherever `__SCRUT_TEMP_STATE_PATH` is not a `.../tmp/.state.*` path (the reference shell)
     WipeState,
+    /// the user's own `trap .. EXIT`: it replaces the carrier's (known finding R56)
+    TrapExit,
+    /// `unset HOME`: a variable that every process starts with (known finding R57)
+    UnsetInherited { name: String },
 }
 
 #[derive(Clone, Debug, PartialEq, Serialize, Deserialize)]
@@ -146,6 +150,8 @@ fn var_names() -> Vec<&'static str> {
     for p in [SCALARS, PREFIXED, TEMPLATE_LIKE, INTS, LOWERS, UPPERS, READONLYS, ARRAYS, ASSOCS] {
         v.extend_from_slice(p);
     }
+    // a variable of the sealed process environment that both worlds start with
+    v.push("HOME");
     v
 }
 
@@ -351,6 +357,8 @@ impl Op {
             Op::Popd => "dir.popd".into(),
             Op::RmCwd => "dir.rm-cwd".into(),
             Op::WipeState => "carrier.wipe-state-dir".into(),
+            Op::TrapExit => "trap.exit".into(),
+            Op::UnsetInherited { .. } => "var.unset-inherited".into(),
         }
     }
 
@@ -381,6 +389,8 @@ impl Op {
             Op::Pushd { .. } | Op::Popd => "dir.stack",
             Op::RmCwd => "dir.rm-cwd",
             Op::WipeState => "carrier.wipe",
+            Op::TrapExit => "trap.exit",
+            Op::UnsetInherited { .. } => "var.unset-inherited",
         }
     }
 
@@ -431,6 +441,8 @@ impl Op {
             Op::Pushd { dir } => format!("mkdir -p {0} && pushd {0} >/dev/null", sh_quote(dir)),
             Op::Popd => "popd >/dev/null 2>&1 || true".into(),
             Op::RmCwd => "command mkdir -p vh-gone && cd vh-gone && { command rmdir \"$PWD\" || true; }".into(),
+            Op::TrapExit => "trap 'true' EXIT".into(),
+            Op::UnsetInherited { name } => format!("unset {name}"),
             Op::WipeState => "case \"${__SCRUT_TEMP_STATE_PATH:-}\" in */tmp/.state.*) command rm -rf -- \"$__SCRUT_TEMP_STATE_PATH\" ;; esac".into(),
         }
     }
@@ -1132,6 +1144,8 @@ struct Risky {
     shadow_wrapper: bool,
     rm_cwd: bool,
     wipe_state: bool,
+    trap_exit: bool,
+    unset_inherited: bool,
 }
 
 fn gen_history(rng: &mut Rng) -> History {
@@ -1147,6 +1161,8 @@ fn gen_history(rng: &mut Rng) -> History {
         shadow_wrapper: rng.chance(1, 30),
         rm_cwd: rng.chance(1, 14),
         wipe_state: rng.chance(1, 10),
+        trap_exit: rng.chance(1, 25),
+        unset_inherited: rng.chance(1, 25),
     };
     let n_steps = rng.range(2, 8);
     // a history that may contain a risky class does contain it: forced at a random step
@@ -1162,11 +1178,13 @@ fn gen_history(rng: &mut Rng) -> History {
     let force_shadow_wrapper = slot(rng, risky.shadow_wrapper, n_steps - 1);
     let force_rm_cwd = slot(rng, risky.rm_cwd, n_steps - 1);
     let force_wipe = slot(rng, risky.wipe_state, n_steps - 1);
+    let force_trap_exit = slot(rng, risky.trap_exit, n_steps - 1);
+    let force_unset_inherited = slot(rng, risky.unset_inherited, n_steps - 1);
     let mut m = Model { extglob_locked: false, posix: false, declare_shadowed: false, cwd_gone: false, readonly_used: BTreeSet::new(), ups: 0 };
     let mut steps = vec![];
     for si in 0..n_steps {
         let n_ops = rng.range(1, 4);
-        let forced_here = [force_readonly, force_allexport, force_dashed, force_posix, force_shadow_dir, force_shadow_builtin, force_shadow_external, force_shadow_alias, force_shadow_wrapper, force_rm_cwd, force_wipe].iter().any(|f| *f == Some(si));
+        let forced_here = [force_readonly, force_allexport, force_dashed, force_posix, force_shadow_dir, force_shadow_builtin, force_shadow_external, force_shadow_alias, force_shadow_wrapper, force_rm_cwd, force_wipe, force_trap_exit, force_unset_inherited].iter().any(|f| *f == Some(si));
         let detached = !forced_here && rng.chance(1, 12);
         let mut ops = vec![];
         let posix_before = m.posix;
@@ -1203,6 +1221,12 @@ fn gen_history(rng: &mut Rng) -> History {
         }
         if force_wipe == Some(si) {
             ops.push(Op::WipeState);
+        }
+        if force_trap_exit == Some(si) {
+            ops.push(Op::TrapExit);
+        }
+        if force_unset_inherited == Some(si) {
+            ops.push(Op::UnsetInherited { name: "HOME".into() });
         }
         if force_rm_cwd == Some(si) && !m.cwd_gone {
             m.cwd_gone = true;
@@ -1278,6 +1302,8 @@ impl Monitor for C12 {
             ("probed:fn.shadow-wrapper".into(), f(1, 15)),
             ("probed:dir.rm-cwd".into(), f(4, 60)),
             ("probed:carrier.wipe".into(), f(10, 150)),
+            ("probed:trap.exit".into(), f(2, 30)),
+            ("probed:var.unset-inherited".into(), f(2, 30)),
             ("probed:fn.dashed".into(), f(15, 225)),
             ("probed:alias".into(), f(70, 1050)),
             ("probed:opt".into(), f(70, 1050)),
